@@ -107,7 +107,7 @@ func checkFilterSelection(c *Ctx, rule string) {
 				if s.Backend != be || s.Verb() != "SELECT" || s.Table() != "queue_items" || s.Fn == nil || !reachR[s.Fn] || seen[s] || s.St.orderBy == "" {
 					continue
 				}
-				if len(p.CallSitesOf(s.Fn)) >= 4 {
+				if p.SharedBy(s.Fn) >= 4 {
 					continue
 				}
 				seen[s] = true
@@ -255,6 +255,10 @@ func checkAdminManageParsers(c *Ctx, rule string) {
 		if fn.Parent() != nil || len(allCalls(fn, isStrictCall)) == 0 || fn.Signature.Results().Len() < 2 {
 			continue
 		}
+		// helpers of the package (a de-duplication step, say) are part of the parser; the strict decoder stays a call
+		fn := p.ViewKeeping(fn, func(callee *ssa.Function) bool {
+			return len(allCalls(callee, func(x ssa.CallInstruction) bool { return calleeIs(x, "encoding/json", "Decoder", "DisallowUnknownFields") })) > 0
+		})
 		r0 := fn.Signature.Results().At(0).Type()
 		switch {
 		case namedName(r0) == "MessageManageFilterRequest":
@@ -375,7 +379,7 @@ func checkPreviewEffectFree(c *Ctx, rule string) {
 					return f != nil && IsModuleFunc(f) && reachesQueueMutation(p, f)
 				}) {
 					// the shared prune prelude runs before the preview test and is retention, not the operation's effect
-					if f := ci.Common().StaticCallee(); len(p.CallSitesOf(f)) >= 4 {
+					if f := ci.Common().StaticCallee(); p.SharedBy(f) >= 4 {
 						continue
 					}
 					muts = append(muts, ci)
